@@ -91,6 +91,17 @@ def gen_inputs(ctx):
         inp2 = copy.deepcopy(inp)
         inp2["drop"] = True
         out.append((a, inp2, ("parent-object-dropped", a) + tuple(key[-2:])))
+    # bulk generation: intervals on either side of and ACROSS the hardened boundary, at the ends of the index range, empty
+    b5 = lambda v: B(v.to_bytes(5, "big"))
+    for st, en, c in ((0, 3, "low"), (2 ** 31 - 2, 2 ** 31 + 2, "straddle"), (2 ** 31 - 1, 2 ** 31 + 1, "straddle-2"), (2 ** 31, 2 ** 31 + 2, "hardened"),
+                      (2 ** 32 - 2, 2 ** 32, "top"), (5, 5, "empty"), (7, 3, "reversed"), (2 ** 31 - 3, 2 ** 31, "up-to-boundary")):
+        for k, kc in rng.sample(sc, 1 if q else 4):
+            out.append(("GenChildren", {"par": parent(rng, k, depth=rng.choice([0, 1, 3])), "start": b5(st), "end": b5(en)}, ("genchildren", c)))
+    # the path handed over as a one-shot iterable (generator, map object, iter(list))
+    for a, inp, key in rng.sample([x for x in out if x[0] == "DerivePath" and "prf" not in x[1] and "drop" not in x[1]], 4 if q else 40):
+        inp2 = copy.deepcopy(inp)
+        inp2["form"] = "iterator"
+        out.append((a, inp2, ("path-as-iterator", len(inp2["path"]))))
     # master generation for several seed lengths
     for n in (16, 32, 64, 1, 0, 65, 128):
         for _ in range(1 if q else 5):
@@ -105,6 +116,9 @@ def describe(ev):
         return "%s(k=%s.., depth=%d, i=%d%s)" % (ev["act"], bytes(i["par"].get("k", i["par"].get("K", [])))[:6].hex(),
                                                    i["par"]["depth"], int.from_bytes(bytes(i["i"]), "big"),
                                                    (", chosen PRF" if i.get("prf") else "") + (", parent object dropped" if i.get("drop") else ""))
+    if ev["act"] == "GenChildren":
+        return "generate_children((%d, %d)) on a %s node" % (int.from_bytes(bytes(i["start"]), "big"), int.from_bytes(bytes(i["end"]), "big"),
+                                                            "private" if i["par"]["prv"] else "public")
     if ev["act"] == "DerivePath":
         return "derive_path(%s)%s" % ([int.from_bytes(bytes(x), "big") for x in i["path"]], " (root object dropped)" if i.get("drop") else "")
     return ev["act"]
